@@ -67,6 +67,7 @@ type Explorer struct {
 	NPaths    int
 	noise     *noise              // optional concurrent traffic through the same application instance (C07)
 	W2        *World              // optional second application instance (another "process"): C07 compares its results too
+	W3        *World              // optional third instance, opened over a committed database like a restarted node (C07)
 	Pairs     map[string]struct{} // distinct (pre-state line, action) pairs are trivially all; kept for distinct (act kind, ok) classes
 }
 
@@ -148,6 +149,15 @@ func (e *Explorer) apply(pre *Snapshot, parent int, a Action) (*Snapshot, int, e
 			return pre, 0, err
 		}
 		digests = append(digests, e.W2.Dump(b).Digest(res))
+	}
+	if e.W3 != nil {
+		// ... and in an instance that did not run genesis itself (a node after a restart)
+		b := e.W3.Ctx(pre)
+		res, err := e.W3.RunTx(b, a)
+		if err != nil {
+			return pre, 0, err
+		}
+		digests = append(digests, e.W3.Dump(b).Digest(res))
 	}
 	id, err := e.emit(parent, a, firstRes, firstCtx, digests, pre, first)
 	return first, id, err
@@ -368,6 +378,11 @@ func Explore(w *World, out *vcommon.Writer, o Options) (*Explorer, error) {
 			return e, err
 		}
 		e.W2 = w2
+		w3, err := NewRestartedWorld(w.Cfg)
+		if err != nil {
+			return e, err
+		}
+		e.W3 = w3
 	}
 	id, err := e.emit(0, Action{Act: "Init"}, TxResult{OK: true}, w.Root, nil, nil, w.genesis)
 	if err != nil {
